@@ -557,6 +557,71 @@ def _rust_fraction_radix(ctx) -> None:
     ctx.count("rust_fraction_carries", n)
 
 
+def parse_results_tabulate(ctx) -> bool | None:
+    """PARSE.tabulated: parser._parse run by the checker's interpreter on every kind of value the low-level parser can hand it (standard
+    library datetime naive and aware, date, time; a pendulum Duration; the compiled parser's Duration record), with and without a tz
+    option; pendulum.datetime / date / time / duration only record their arguments.  A datetime must be rebuilt field by field with
+    tz = its own tzinfo, else the option, else UTC; a date and a time field by field; a Duration is handed on; the compiled record
+    becomes pendulum.duration(...) with each of the eight components from its own field."""
+    import datetime as _dt
+    from ..rules import minieval
+    S = minieval.Stub
+    m = pmod("parser")
+    fn = m.func("_parse")
+    UTCm, TZm = S(_name="UTC"), S(_name="tz option")
+    off = _dt.timezone(_dt.timedelta(hours=5, minutes=30))
+    dur = S(_kind="duration")
+    rs = S(_kind="rsduration", years=1, months=2, weeks=3, days=4, hours=5, minutes=6, seconds=7, microseconds=8)
+    rec = lambda name: (lambda *a, **k: (name, a, k))      # noqa: E731
+    bad, n = [], 0
+    try:
+        for opt in ({}, {"tz": TZm}):
+            tzw = opt.get("tz", UTCm)
+            cases = [("a naive datetime", _dt.datetime(2021, 3, 7, 14, 5, 9, 123456), ("datetime", (2021, 3, 7, 14, 5, 9, 123456), {"tz": tzw})),
+                     ("an aware datetime", _dt.datetime(2021, 3, 7, 14, 5, 9, 123456, tzinfo=off), ("datetime", (2021, 3, 7, 14, 5, 9, 123456), {"tz": off})),
+                     ("a UTC datetime", _dt.datetime(1999, 12, 31, 23, 59, 59, 1, tzinfo=_dt.timezone.utc), ("datetime", (1999, 12, 31, 23, 59, 59, 1), {"tz": _dt.timezone.utc})),
+                     ("a date", _dt.date(2020, 2, 29), ("date", (2020, 2, 29), {})), ("a time", _dt.time(23, 4, 5, 6), ("time", (23, 4, 5, 6), {})),
+                     ("a pendulum Duration", dur, dur),
+                     ("the compiled parser's duration", rs, ("duration", (), dict(years=1, months=2, weeks=3, days=4, hours=5, minutes=6, seconds=7, microseconds=8)))]
+            for label, parsed, want in cases:
+                glob = {"base_parse": lambda *a_, _p=parsed, **k_: _p,
+                        "pendulum": S(datetime=rec("datetime"), date=rec("date"), time=rec("time"), duration=rec("duration"), instance=rec("instance"), interval=rec("interval"), now=rec("now")),
+                        "datetime": S(datetime=_dt.datetime, date=_dt.date, time=_dt.time),
+                        "_Interval": minieval.ClassStub(_new=None, _isa=lambda v: False),
+                        "Duration": minieval.ClassStub(_new=None, _isa=lambda v: isinstance(v, S) and getattr(v, "_kind", "") == "duration"),
+                        "RustDuration": minieval.ClassStub(_new=None, _isa=lambda v: isinstance(v, S) and getattr(v, "_kind", "") == "rsduration"),
+                        "UTC": UTCm, "t": S(cast=lambda ty, v: v, Any=None, Callable=None), "ParserError": ValueError, "NotImplementedError": ValueError}
+                funcs = {st.name: st for st in m.top() if isinstance(st, ast.FunctionDef)}
+                minieval.module_tables(m, glob, funcs)
+                n += 1
+                try:
+                    got = minieval.call(fn, ["x"], dict(opt), {**funcs, "$globals": glob})
+                except minieval.Raised as e:
+                    bad.append(f"{label}{' with a tz option' if opt else ''}: raises {e.exc_name}")
+                    continue
+                if isinstance(got, tuple) and len(got) == 3 and isinstance(want, tuple):
+                    # positional and keyword arguments bound to the constructor's parameter order
+                    order = {"datetime": ["year", "month", "day", "hour", "minute", "second", "microsecond"], "date": ["year", "month", "day"],
+                             "time": ["hour", "minute", "second", "microsecond"], "duration": []}.get(got[0], [])
+                    kw = dict(zip(order, got[1]))
+                    kw.update(got[2])
+                    wkw = dict(zip(order, want[1]))
+                    wkw.update(want[2])
+                    ok = got[0] == want[0] and len(got[1]) <= len(order) and {k: v for k, v in kw.items()} == wkw
+                else:
+                    ok = got is want
+                if not ok:
+                    bad.append(f"{label}{' with a tz option' if opt else ''}: {got!r} (expected {want!r})")
+    except (core.Unsupported, KeyError, TypeError, AttributeError, ValueError, IndexError, RecursionError) as e:
+        ctx.unverified("PARSE.tabulated", "parser._parse", f"outside the checker's interpreter: {type(e).__name__}: {e}", m.loc(fn))
+        return None
+    ctx.ob("PARSE.tabulated", "parser._parse", not bad, f"{n} (kind of parsed value, tz option) cases: " + ("; ".join(bad[:3]) if bad else
+           "each rebuilt field by field as the pendulum value of its kind; a datetime in its own offset, else the tz option, else UTC"), m.loc(fn))
+    if not bad:
+        ctx.established(("FUNNEL.parse", "LADDER.exhaustive"), "parser._parse", "PARSE.tabulated")
+    return not bad
+
+
 def _interval_tabulate(ctx, m, fn) -> bool:
     """INTERVAL.tabulated: parser._parse is run by the checker's interpreter on the three interval forms the low-level parser
     can hand it (start/end, start/duration, duration/end; stubs that only record what is done to them), with and without a
@@ -598,6 +663,7 @@ def _interval_tabulate(ctx, m, fn) -> bool:
                         "Duration": minieval.ClassStub(_new=lambda *a_, **k_: S(), _isa=lambda v: isinstance(v, S) and getattr(v, "_kind", "") == "duration"),
                         "RustDuration": None, "UTC": UTCm, "t": S(cast=lambda ty, v: v, Any=None), "ParserError": ValueError, "NotImplementedError": ValueError}
                 funcs = {st.name: st for st in m.top() if isinstance(st, ast.FunctionDef)}
+                minieval.module_tables(m, glob, funcs)
                 got = minieval.call(fn, ["x/y"], dict(opt), {**funcs, "$globals": glob})
                 n += 1
                 tzw = opt.get("tz", UTCm)
@@ -721,6 +787,7 @@ def run(ctx) -> None:
     ctx.step(_rust_fraction_radix, ctx)
     ctx.step(_rust_round_last, ctx)
     ctx.step(_rust_order_guards, ctx)
+    ctx.step(parse_results_tabulate, ctx)
     ctx.step(_interval_assembly, ctx)
     from . import C17
     ctx.step(C17._interval_types, ctx, True)        # which halves reach _Interval, and that the three well-formed shapes are accepted
